@@ -68,6 +68,7 @@ class Node:
         self.silent_from = None      # vanishes once that many frames are on the bus
         self.deaf = False            # receives nothing (but may send)
         self.suppressed = []
+        self.blocking_send = False   # Stack: True (subject to Bus.send_cost); scripted peers send instantly
         self.nested_rx = 0           # must stay 0: a receive thread never re-enters itself
         self.last_rx_t = None
         self.last_tx_t = None
@@ -112,6 +113,7 @@ class Bus:
         self.rx_exc = []                 # exceptions escaping a node's handler (harness nodes only)
         self.ghost = None
         self.capture = None              # list: frames sent while probing are captured, not transmitted
+        self.send_cost = 0.0             # a blocking driver: the sending thread is held this long inside send_message
         self.cap = 20000                 # frame storm guard: beyond this the bus goes dead and the run is flagged
         self.storm = False
 
@@ -128,7 +130,9 @@ class Bus:
         if node.silent_from is not None and n >= node.silent_from:
             node.suppressed.append((w.now, can_id, data))
             return
-        fr = Frame(n, w.now, node.name, can_id, ext, data, fd)
+        cost = self.send_cost if (self.send_cost and not injected and node.blocking_send) else 0.0
+        t_bus = w.now + cost             # the frame is on the bus when the (blocking) send call completes
+        fr = Frame(n, t_bus, node.name, can_id, ext, data, fd)
         fr.injected = injected
         self.log.append(fr)
         for tap in self.taps:
@@ -145,15 +149,22 @@ class Bus:
                     lat = w.choose('lat', self.lat_grid, (n, rcv.name))
                 else:
                     lat = self.base_lat
-                t = w.now + lat
+                t = t_bus + lat
                 if t < rcv.last_t:
                     t = rcv.last_t
-                if lat == 0 and rcv.inflight == 0 and t <= w.now:
+                if lat == 0 and cost == 0 and rcv.inflight == 0 and t <= w.now:
                     rcv.receive(fr)
                 else:
                     rcv.inflight += 1
                     rcv.last_t = t
                     w.at(t, lambda rcv=rcv, fr=fr: self._deliver(rcv, fr))
+        if cost:
+            # hold the sender (a controlled thread yields; everything else - receive threads, other stacks, the
+            # application - goes on meanwhile); a send made by the scheduler thread itself just takes that long
+            if w.cur is not None:
+                w.hold(cost)
+            elif w.now < t_bus:
+                w.now = t_bus
         inj = self.inject.get(n)
         if inj:
             for (can_id2, data2, fd2) in inj:
@@ -206,13 +217,15 @@ class Stack(Node):
         self.listener = MessageListener(self.ecu)
         self.cas = []
         self.flags = None            # override (ext, remote, error) of delivered frames (C05)
+        self.blocking_send = True
+        self.zero_ts = False         # deliver frames with timestamp 0.0 (a backend without time stamping)
         self.rx_errors = 0
 
     def _send(self, can_id, extended_id, data, fd_format=False):
         self.bus.send(self, can_id, bool(extended_id), bytes(data), bool(fd_format))
 
     def handle(self, fr):
-        msg = can.Message(timestamp=self.bus.w.now, arbitration_id=fr.can_id,
+        msg = can.Message(timestamp=0.0 if self.zero_ts else self.bus.w.now, arbitration_id=fr.can_id,
                           is_extended_id=fr.ext, data=fr.data, is_fd=fr.fd, check=False)
         self.listener.on_message_received(msg)
 
